@@ -150,7 +150,8 @@ impl Buildpack for TestBuildpack {
             // always added in this order: launch.toml must be the same bytes in every process
             let mut lb = LaunchBuilder::new();
             for (i, p) in ["web", "worker", "release", "console"].iter().enumerate() {
-                lb.process(ProcessBuilder::new(p.parse().unwrap(), ["run", p]).default(i == 0).build());
+                // (two process types flagged default: what the buildpack said is what is written)
+                lb.process(ProcessBuilder::new(p.parse().unwrap(), ["run", p]).default(i == 0 || i == 2).build());
             }
             for (k, v) in [("com.example.version", "0"), ("org.a", "1"), ("zz", "2"), ("com.example.version", "1.2.3"), ("b", "3"), ("a.b.c", "4")] {
                 lb.label(libcnb::data::launch::Label { key: k.to_string(), value: v.to_string() });
